@@ -651,11 +651,22 @@ def write_world(root, cfg, skills, cmdfiles):
             mods.append({'id': e['id'], 'type': 'instructions', 'resolved_source': rs, 'resolved_version': 'v', 'sha256': 'x', 'file_manifest': []})
         open(lp, 'w').write(json.dumps({'version': 1, 'generated_at': '2026-01-01T00:00:00Z', 'modules': mods}, indent=1))
     for i, (fm, _) in enumerate(skills):
-        d = os.path.join(root, 'skills', 's%d' % i); os.makedirs(d)
+        d = os.path.join(root, skill_dir(cfg, i)); os.makedirs(d, exist_ok=True)
         open(os.path.join(d, 'SKILL.md'), 'w').write(render_fm(fm) + '# skill\n')
+    if cfg.get('skill_layout') == 'umbrella':      # a well-formed SKILL.md one level ABOVE the others
+        os.makedirs(os.path.join(root, 'skills'), exist_ok=True)
+        open(os.path.join(root, 'skills', 'SKILL.md'), 'w').write(render_fm(SKILL_FMS[0][0]) + '# umbrella\n')
     d = os.path.join(root, '.claude', 'commands'); os.makedirs(d)
     for i, md in enumerate(cmdfiles):
         open(os.path.join(d, 'c%d.md' % i), 'w').write(md)
+
+def skill_dir(cfg, i):
+    """where skill i lives: flat (skills/s<i>), nested (below another skill's directory: every SKILL.md is a skill,
+    wherever it lies), umbrella (a well-formed skills/SKILL.md above all of them)"""
+    lay = cfg.get('skill_layout', 'flat')
+    if lay == 'nested' and i > 0:
+        return 'skills/s0/extras/s%d' % i
+    return 'skills/s%d' % i
 
 def render_fm(fm):
     if fm is None: return ''
@@ -738,6 +749,7 @@ def run_configs(ctx, cat, n):
         for i in range(n):
             cfg = gen_config(rng, cat)
             skills = [(SKILL_FMS[0] if cfg['clean'] and rng.random() < 0.9 else pick(rng, SKILL_FMS)) for _ in range(rng.choice([0, 1, 2]))]
+            cfg['skill_layout'] = pick(rng, ['flat', 'flat', 'nested', 'umbrella'])
             cmds = []
             for _ in range(rng.choice([0, 1, 2])):
                 md, fm = gen_cmdfile(rng, cat)
@@ -779,7 +791,7 @@ def run_configs(ctx, cat, n):
                 mods = cq.clist(['(mkmod %s %s %s)' % (cq.cstr(m['id']), cq.cbool(m['enabled']), cq.copt(m['git'], cq.cstr)) for m in cfg['mods']])
                 ccases.append((cq.cpair(sup, dist, mods, cq.clist([cq.cpair(cq.cstr(r), cq.cstr(mid)) for r, mid in obs])), dict(case, observed=obs)))
             for j, (fm, nbad) in enumerate(skills):
-                got = sum(1 for x in issues if x['rule'] == 'skill_frontmatter' and x['path_posix'] == 'skills/s%d/SKILL.md' % j)
+                got = sum(1 for x in issues if x['rule'] == 'skill_frontmatter' and x['path_posix'] == skill_dir(cfg, j) + '/SKILL.md')
                 scases.append((cq.cpair(c_fm(fm), cq.cN(got)), dict(case, skill=j, skill_issues=got)))
             for j, (md, fm) in enumerate(cmds):
                 got = any(x['rule'] == 'claude_command_allowed_tools' and x['path_posix'] == '.claude/commands/c%d.md' % j for x in issues)
